@@ -273,6 +273,12 @@ const char *decodeOne(const Bytes &m, const How &howLazy) {
         if (!diff.empty()) V::failKey(std::string("unpack:unfaithful:") + (ref.rcode ? "rcode" : "ok") + ":" + tag, howLazy.str() + ": " + diff + " for well-formed " + showMsg(m));
         cls = ref.rcode ? "wellformed:rcode" : ref.an ? "wellformed:answers" : "wellformed:no-answers";
     }
+    if ((howLazy.kind == 0 && (nDecodes % 1500) == 1) || (howLazy.kind == 2 && (nDecodes % 400001) == 7)) {
+        std::string t = howLazy.str() + ": " + showMsg(m) + " => returned " + std::to_string(n);
+        if (msg && msg->query) t += std::string(", question \"") + V::esc(msg->query->name) + "\"";
+        for (int i = 0; msg && i < n && i < 3; ++i) t += std::string(i ? ", " : "; answers: ") + V::esc(msg->answer[i].name) + " type " + std::to_string(msg->answer[i].type) + (msg->answer[i].type == tPTR && msg->answer[i].rdata ? std::string(" -> ") + V::esc(msg->answer[i].rdata) : std::string());
+        V::sample(t + (wf ? " [reference: well-formed, equal]" : std::string(" [reference: malformed: ") + why + "]"));
+    }
     if (msg) rfc1035MessageDestroy(&msg);
     free(blk);
     return cls;
@@ -289,8 +295,9 @@ void tally(const char *prefix, const char *cls) {
 }
 
 // the message itself, every truncation, every single-octet mutation.
-// hugeCounts: also set the high octet of ANCOUNT to 0xFF/0xC0/0x3F/0x0C (an 18 MB record array per decode: done for the small
-// messages and the seeds only; everywhere else octet 6 is mutated to 0x00 and +1, i.e. up to 511 records).
+// hugeCounts: also set the high octet of ANCOUNT to 0xFF/0xC0/0x3F/0x0C (an up to 18 MB record array per decode, about a second
+// under ASan: done for the answer-less messages of header 0 with names <= 1 label and for the seeds; everywhere else octet 6 is
+// mutated to 0x00 and +1 only, i.e. up to 511 records).
 void explore(const Bytes &m, const std::string &how, bool mustBeWellformed, const DMsg *want, bool hugeCounts, bool mutate = true) {
     if (mustBeWellformed) {
         // self-test: the independent reference decoder must agree with the reference encoder
@@ -498,20 +505,21 @@ void body(V::Ctx &ctx)
     std::vector<Kind> kinds;
     for (int t : Types) for (int c = 0; c < 4; ++c) kinds.push_back({t, c});
 
-    // quick:    headers 0-2 x { names <= 2 labels x answer lists of length <= 2,  names of 3 labels x lists of length <= 1 }
+    // quick:    header 0 x { names <= 2 labels x answer lists of length <= 2,  names of 3 labels x lists of length <= 1 }
+    //           + headers 1,2 x all names x lists <= 1
     // thorough: headers 0-3 x { names <= 3 labels x lists <= 2 } + headers 0,1 x { names <= 1 label x lists of length 3 }
     //           + headers 4,5 x names <= 3 labels x lists <= 1
     auto runSpec = [&](Spec &s) {
         DMsg want;
         const Bytes m = encode(s, want);
-        const bool small = s.hdr == 0 && s.qname.size() <= 1 && s.rrs.size() <= 1;
+        const bool small = s.hdr == 0 && s.qname.size() <= 1 && s.rrs.empty();
         explore(m, describe(s), true, &want, small);
     };
     for (int h = 0; h < (quick ? 3 : 6); ++h) {
         for (size_t ni = 0; ni < names3.size(); ++ni) {
             const size_t nl = names3[ni].size();
             int maxRR;
-            if (quick) maxRR = nl == 3 ? 1 : 2;
+            if (quick) maxRR = (nl == 3 || h > 0) ? 1 : 2;
             else if (h >= 4) maxRR = 1;
             else maxRR = (nl <= 1 && h <= 1) ? 3 : 2;
             Spec s; s.hdr = h; s.qname = names3[ni];
